@@ -67,6 +67,7 @@ type FnEnc struct {
 	assertFired map[int]bool
 	lastArgs    []RV              // arguments of the call being translated (arg0, arg1, ... in cut points)
 	lastRets    []RV              // results of the call being translated (bound as ret, ret0, ret1 in `after` cut points)
+	rename      map[string]string // local names of the contract that the code has since renamed (same position, same type): old -> new
 	lits        map[string]string // const name -> literal
 	loops       []*Loop
 	loopOf      map[*ssa.BasicBlock]*Loop
@@ -108,6 +109,9 @@ func (c *Ctx) newFnEnc(fn *ssa.Function, dry bool) *FnEnc {
 		fe.cf = c.contracts[fe.pkgPath]
 	}
 	fe.contract = c.contractFor(fn)
+	if fe.contract != nil {
+		fe.rename = c.renamedLocals(fe.pkgShort()+"::"+fe.key, fn)
+	}
 	return fe
 }
 
@@ -1049,6 +1053,11 @@ func (fe *FnEnc) callSrc(pos token.Pos) string {
 // textOrdinal: among the call expressions of the function under verification whose source text contains text, in source
 // order, the 1-based position of the one at pos (0: none)
 func (fe *FnEnc) textOrdinal(pos token.Pos, text string) int {
+	return fe.textOrdinalAny(pos, []string{text})
+}
+
+// textOrdinalAny counts the call sites whose text contains any of the texts (an anchor and its renamed variants)
+func (fe *FnEnc) textOrdinalAny(pos token.Pos, texts []string) int {
 	f := fe.astFile(pos)
 	if f == nil {
 		return 0
@@ -1079,7 +1088,14 @@ func (fe *FnEnc) textOrdinal(pos token.Pos, text string) int {
 		if c, ok := n.(*ast.CallExpr); ok {
 			var sb strings.Builder
 			_ = printer.Fprint(&sb, fe.c.fset, c)
-			if strings.Contains(strings.Join(strings.Fields(sb.String()), " "), text) {
+			ct := strings.Join(strings.Fields(sb.String()), " ")
+			hit := false
+			for _, text := range texts {
+				if strings.Contains(ct, text) {
+					hit = true
+				}
+			}
+			if hit {
 				k++
 				if c == here {
 					found = k
